@@ -529,6 +529,52 @@ func run(r *Rng, tier string, n int) {
 			}
 		}
 	}
+	// records obtained from the wire through ONE receive buffer that is reused for the next message (what a
+	// server or client loop does): the comparison of the first record with the second must be what it is for
+	// the same two records decoded from buffers of their own
+	for _, t := range AllTypes() {
+		reps := 3
+		if t == dns.TypeSVCB || t == dns.TypeHTTPS || t == dns.TypeOPT || t == dns.TypeAPL {
+			reps = 40 // many parameter / option kinds, each with a decoder of its own
+		}
+		for k := 0; k < reps; k++ {
+			r1, i1 := GenRR(r, pool, t, false)
+			r2, i2 := GenRR(r, pool, t, false)
+			if r1 == nil || r2 == nil || !i1.WellFormed || !i2.WellFormed {
+				continue
+			}
+			r2.Header().Name, r2.Header().Class = r1.Header().Name, r1.Header().Class
+			b1, b2 := make([]byte, 4096), make([]byte, 4096)
+			o1, e1 := dns.PackRR(r1, b1, 0, nil, false)
+			o2, e2 := dns.PackRR(r2, b2, 0, nil, false)
+			if e1 != nil || e2 != nil {
+				continue
+			}
+			own1, _, e3 := dns.UnpackRR(append([]byte{}, b1[:o1]...), 0)
+			own2, _, e4 := dns.UnpackRR(append([]byte{}, b2[:o2]...), 0)
+			if e3 != nil || e4 != nil {
+				continue
+			}
+			shared := make([]byte, 4096)
+			copy(shared, b1[:o1])
+			a, _, e5 := dns.UnpackRR(shared[:o1], 0)
+			for i := range shared {
+				shared[i] = 0xAA
+			}
+			copy(shared, b2[:o2])
+			b, _, e6 := dns.UnpackRR(shared[:o2], 0)
+			if e5 != nil || e6 != nil {
+				continue
+			}
+			st["buffer_reuse_pairs_checked"]++
+			if got, want := isDup(a, b), isDup(own1, own2); got != want {
+				Viol("C20/wire/receive-buffer-reused/"+dns.TypeToString[t], "two records decoded one after the other from one reused buffer: IsDuplicate = "+got+", decoded from buffers of their own: "+want, map[string]string{"a": own1.String(), "b": own2.String()})
+			}
+			if got := isDup(a, own1); got != "ok:true" && t != dns.TypeOPT {
+				Viol("C20/wire/receive-buffer-reused/"+dns.TypeToString[t], "a record decoded from a buffer that was reused afterwards is no longer a duplicate of the same record decoded from its own buffer: "+got, map[string]string{"a": own1.String(), "now": a.String()})
+			}
+		}
+	}
 	// Dedup when the SAME record value occurs more than once in the list (a cached record appended twice)
 	{
 		a, _ := dns.NewRR("same.example. 300 IN A 192.0.2.1")
@@ -590,6 +636,9 @@ func run(r *Rng, tier string, n int) {
 			g := r.Intn(len(base))
 			c := dns.Copy(base[g])
 			c.Header().Ttl = uint32(r.Intn(1000))
+			if i%3 == 0 { // the whole 32-bit range, around the sign bit and the ends
+				c.Header().Ttl = []uint32{0, 1, 1<<31 - 1, 1 << 31, 1<<31 + 1, 1<<32 - 2, 1<<32 - 1, uint32(r.Intn(1 << 30)), 1<<31 + uint32(r.Intn(1<<30))}[r.Intn(9)]
+			}
 			if r.Bool() {
 				c.Header().Name = flipNameCase(r, c.Header().Name)
 			}
